@@ -2823,12 +2823,25 @@ pub fn freeze(env: &mut FreezeEnv, expr: &LocExpr) -> NRes<LocExpr> {
                     }
                 }
 
+                // the `into` target is evaluated once, before the loop, in the enclosing scope
+                let frozen_into = match &**body {
+                    ForBody::Yield(_, Some(s)) | ForBody::YieldItem(_, _, Some(s)) => {
+                        Some(freeze(env, s)?)
+                    }
+                    _ => None,
+                };
                 let mut env2 = env.clone();
                 Ok(Expr::For(
                     iteratees
                         .iter()
                         .map(|x| match x {
                             ForIteration::Iteration(ty, lv, expr) => {
+                                // the iteratee of `x <- e` and `i, x <<- e` is evaluated before
+                                // the clause's variables exist: in `for (x <- x)` it is the outer x
+                                let iteratee = match ty {
+                                    ForIterationType::Declare => None,
+                                    _ => Some(box_freeze(&mut env2, expr)?),
+                                };
                                 // have to bind first so box_freeze_lvalue works
                                 // also recursive functions work ig
                                 env2.bind(lv.collect_identifiers(
@@ -2841,7 +2854,10 @@ pub fn freeze(env: &mut FreezeEnv, expr: &LocExpr) -> NRes<LocExpr> {
                                 Ok(ForIteration::Iteration(
                                     *ty,
                                     box_freeze_lvalue(&mut env2, lv)?,
-                                    box_freeze(&mut env2, expr)?,
+                                    match iteratee {
+                                        Some(e) => e,
+                                        None => box_freeze(&mut env2, expr)?,
+                                    },
                                 ))
                             }
                             ForIteration::Guard(expr) => {
@@ -2851,18 +2867,11 @@ pub fn freeze(env: &mut FreezeEnv, expr: &LocExpr) -> NRes<LocExpr> {
                         .collect::<NRes<Vec<ForIteration>>>()?,
                     Box::new(match &**body {
                         ForBody::Execute(b) => ForBody::Execute(freeze(&mut env2, b)?),
-                        ForBody::Yield(b, None) => ForBody::Yield(freeze(&mut env2, b)?, None),
-                        // this is technically wrong order
-                        ForBody::Yield(b, Some(s)) => {
-                            ForBody::Yield(freeze(&mut env2, b)?, Some(freeze(&mut env2, s)?))
-                        }
-                        ForBody::YieldItem(kb, vb, None) => {
-                            ForBody::YieldItem(freeze(&mut env2, kb)?, freeze(&mut env2, vb)?, None)
-                        }
-                        ForBody::YieldItem(kb, vb, Some(s)) => ForBody::YieldItem(
+                        ForBody::Yield(b, _) => ForBody::Yield(freeze(&mut env2, b)?, frozen_into),
+                        ForBody::YieldItem(kb, vb, _) => ForBody::YieldItem(
                             freeze(&mut env2, kb)?,
                             freeze(&mut env2, vb)?,
-                            Some(freeze(&mut env2, s)?),
+                            frozen_into,
                         ),
                     }),
                 ))
